@@ -109,6 +109,15 @@ func ruleP18Sgr(p *Prog, r *Report) {
 		}
 		r.check(ok, rule, "strip", p.pos(strip0.Pos()), "StripAllAnsiSequences deletes every match of "+pat, "StripAllAnsiSequences does not delete exactly the matches of the ANSI pattern")
 	}
+	// … and nothing else: whatever the pattern can match is made of whole control sequences
+	// (ECMA-48: ESC [, parameter bytes 0x30-0x3F, intermediate bytes 0x20-0x2F, one final byte
+	// 0x40-0x7E), so a match never extends into the visible text that follows a sequence
+	const csiRun = `(\x1b\[[0-9:;<=>?]*[ -/]*[@-~])+`
+	if inc, w, err := reIncluded(pat, csiRun); err != nil {
+		r.undecided(rule, "pattern:only-sequences", p.pos(g.Pos()), "cannot evaluate pattern: %v", err)
+	} else {
+		r.check(inc, rule, "pattern:only-sequences", p.pos(g.Pos()), "every match of the strip pattern is a run of complete control sequences", fmt.Sprintf("the strip pattern %s also matches %q, which is not a run of complete control sequences: visible text next to a sequence is removed from the 'unstyled' text and from the measured cell widths", pat, w))
+	}
 	check := func(key, seq, pos string) {
 		if seq == "" {
 			r.ok(rule, key, pos, "empty sequence")
@@ -347,7 +356,7 @@ func ruleP18Width(p *Prog, r *Report) {
 	r.check(okMax, rule, "Cell:longest", p.pos(cell.Pos()), "the column width is the maximum of the measured widths", "the column width is not tracked from the measured cell width")
 	// Collect: padding = Repeat(" ", longestCell[col] - c.len)
 	okPad := false
-	eachInstr(collect, func(in ssa.Instruction) {
+	eachVInstr(collect, func(in ssa.Instruction) {
 		c, ok := in.(ssa.CallInstruction)
 		if !ok || staticCallee(c) == nil || staticCallee(c).String() != "strings.Repeat" {
 			return
